@@ -88,6 +88,10 @@ impl WalIndex {
         #[cfg(feature = "verif")]
         crate::wal::verif::io_event("rename", &self.path, 0, 0);
         fs::rename(&tmp_path, &self.path)?;
+        // Make the rename itself durable, as create_new_file does for new WAL files
+        if let Some(dir) = std::path::Path::new(&self.path).parent() {
+            fs::File::open(dir)?.sync_all()?;
+        }
         Ok(())
     }
 }
